@@ -299,14 +299,13 @@ func checkC13(c *C13Case, rec *evid.Rec) (vs []pbt.Violation) {
 				o.lateSend = "blocked"
 			}
 		}
-		// the application shuts the acceptor down; ListenAndServe must return
+		// the application shuts the acceptor down; ListenAndServe must return. The
+		// connection itself must have been closed before that: every cause ends it.
 		if ar != nil {
 			ar.A.Close()
 			time.Sleep(settle)
 			synctest.Wait()
 			o.served = ar.Returned()
-			cl, _ := conn.IsClosed()
-			o.connClosed = cl
 		}
 		if !o.served || !o.connClosed || o.lateSend == "blocked" || o.parkedStuck > 0 {
 			o.stacks = rig.Stacks()
